@@ -550,6 +550,28 @@ def hir_nodes(n):
             yield from hir_nodes(x)
 
 
+def _ret_ty(body):
+    return (body.get("hir") or {}).get("ty")
+
+
+def _UNIT_RESULT(body):
+    t_ = _ret_ty(body) or ""
+    return {t_} if re.match(r"^(std::result::|core::result::)?Result<\(\), ", t_) else set()
+
+
+def _with_out(v, mv):
+    """the value of a function that delivers its result through one `&mut` out-parameter: `Ok(())` / `()` stands for
+    the final contents of that parameter"""
+    v0 = core(v)
+    if isinstance(v0, PhiV):
+        return PhiV([(c, _with_out(x, mv)) for c, x in v0.alts])
+    if isinstance(v0, StructV) and v0.variant == "Ok" and core(v0.fields.get("0", UNIT)) is UNIT:
+        return StructV(v0.adt, "Ok", {"0": mv}, v0.base, v0.node)
+    if v0 is UNIT:
+        return mv
+    return v
+
+
 class InterpError(Exception):
     pass
 
@@ -662,12 +684,21 @@ class Interp:
         """Interpret function `name` with symbolic parameters (or given args)."""
         body = self.crate.body(name)
         params = body.get("params", [])
+        outs_ = []
         if args is None:
             args = []
             for p in params:
                 nm = p["name"] if p["k"] == "Binding" else "arg%d" % len(args)
                 if "DERWriter" in p.get("ty", "") and "impl" not in p.get("ty", ""):
                     args.append(None)  # filled below
+                elif p["k"] == "Binding" and (p.get("ty") or "").startswith("&mut ") and re.match(r"^&mut (std::vec::Vec|Vec|std::option::Option|Option)<", p.get("ty") or "") and _ret_ty(body) in {"()", None} | _UNIT_RESULT(body):
+                    # an out-parameter (`fn f(src, out: &mut Vec<T>) -> Result<(), E>`): run it on a fresh list, and
+                    # what the list holds afterwards is what the function "returns" (see below)
+                    mv_ = MutV(CallV("std::vec::Vec::new", [], None) if "Vec<" in (p.get("ty") or "")[:24] else StructV("std::option::Option", "None", {}))
+                    mv_.depth = 0
+                    mv_.is_out = True
+                    outs_.append(mv_)
+                    args.append(mv_)
                 else:
                     args.append(Param(nm))
         out = {}
@@ -678,6 +709,8 @@ class Interp:
                 kind = "seq" if "DERWriterSeq" in ty else ("set" if "DERWriterSet" in ty else "w")
                 args[i] = WriterV(kind, top)
         val = self.call_body(name, body, args)
+        if len(outs_) == 1:
+            val = _with_out(val, outs_[0])
         out["value"] = val
         out["items"] = top.items
         return out
@@ -1689,7 +1722,17 @@ class Interp:
         self.muts.append((tgt, "assign" if op == "=" else "assignop:" + op, (sel, r), n, self.cur_fn(), self.cur_cond()))
         if x["k"] == "Path" and x["res"] == "local":
             cur = fr.get(x["hid"])
-            if sel == "" and op == "=":
+            if sel == "" and op == "=" and getattr(cur, "is_out", False) and lnode.get("k") == "Unary":
+                # `*out = value` through the out-parameter of the function being run: the referent itself changes
+                depth = getattr(cur, "depth", None)
+                c_ = self.cur_cond(depth) if depth is not None and depth <= len(self.ctx) else True
+                if c_ is True or c_ is False:
+                    cur.base, cur.ops = r, []
+                else:
+                    prev_ = MutV(cur.base)
+                    prev_.ops = list(cur.ops)
+                    cur.base, cur.ops = PhiV([(c_, r), (Not(c_), prev_ if prev_.ops else prev_.base)]), []
+            elif sel == "" and op == "=":
                 depth = getattr(cur, "depth", None)
                 c_ = self.cur_cond(depth) if depth is not None and depth <= len(self.ctx) else True
                 if c_ is True or c_ is False or not isinstance(cur, MutV):
